@@ -835,4 +835,32 @@ def M33.interopArr2 {α : Type} (a : M33 α) : (M33 α) :=
 def M44.interopArr2 {α : Type} (a : M44 α) : (M44 α) :=
   ⟨a.x00, a.x01, a.x02, a.x03, a.x10, a.x11, a.x12, a.x13, a.x20, a.x21, a.x22, a.x23, a.x30, a.x31, a.x32, a.x33⟩
 
+/-- extracted from the C++ template at T = Sym; 1 path(s) -/
+def M22.assign {α : Type} (a : M22 α) (b : M22 α) : (M22 α) :=
+  ⟨b.x00, b.x01, b.x10, b.x11⟩
+
+/-- extracted from the C++ template at T = Sym; 1 path(s) -/
+def M22.copyCtor {α : Type} (a : M22 α) : (M22 α) :=
+  ⟨a.x00, a.x01, a.x10, a.x11⟩
+
+/-- extracted from the C++ template at T = Sym; 1 path(s) -/
+def M33.assign {α : Type} (a : M33 α) (b : M33 α) : (M33 α) :=
+  ⟨b.x00, b.x01, b.x02, b.x10, b.x11, b.x12, b.x20, b.x21, b.x22⟩
+
+/-- extracted from the C++ template at T = Sym; 1 path(s) -/
+def M33.copyCtor {α : Type} (a : M33 α) : (M33 α) :=
+  ⟨a.x00, a.x01, a.x02, a.x10, a.x11, a.x12, a.x20, a.x21, a.x22⟩
+
+/-- extracted from the C++ template at T = Sym; 1 path(s) -/
+def M44.assign {α : Type} (a : M44 α) (b : M44 α) : (M44 α) :=
+  ⟨b.x00, b.x01, b.x02, b.x03, b.x10, b.x11, b.x12, b.x13, b.x20, b.x21, b.x22, b.x23, b.x30, b.x31, b.x32, b.x33⟩
+
+/-- extracted from the C++ template at T = Sym; 1 path(s) -/
+def M44.copyCtor {α : Type} (a : M44 α) : (M44 α) :=
+  ⟨a.x00, a.x01, a.x02, a.x03, a.x10, a.x11, a.x12, a.x13, a.x20, a.x21, a.x22, a.x23, a.x30, a.x31, a.x32, a.x33⟩
+
+/-- extracted from the C++ template at T = Sym; 1 path(s) -/
+def M44.ctorRT {α : Type} [OfNat α 0] [OfNat α 1] (r : M33 α) (t : V3 α) : (M44 α) :=
+  ⟨r.x00, r.x01, r.x02, (0 : α), r.x10, r.x11, r.x12, (0 : α), r.x20, r.x21, r.x22, (0 : α), t.x, t.y, t.z, (1 : α)⟩
+
 end ImathVerif.Gen
